@@ -305,7 +305,8 @@ def obligations(tier, seed):
         evs = [e for e in p.events if e.kind == "call"]
         inner = [e for e in evs if re.search(r"as (tower::)?Service<.*>>::call$", e.callee)]
         auth = [e for e in evs if e.callee.endswith("from_http_request") or "from_http_request::<" in e.callee]
-        rec = [e for e in evs if re.search(r"is_none_or", e.callee)]
+        # Option::is_none_or(filter, |f| f.recognize(&authority)): no filter -> true; a filter -> whatever recognize answers (closure inlined)
+        rec = [e for e in evs if re.search(r"is_none_or", e.callee) or re.search(r"::recognize$", e.callee)]
         pc = p.cond()
         if inner:
             reach_in.append(pc)
@@ -314,7 +315,11 @@ def obligations(tier, seed):
             else:
                 # inner.call only when from_http_request returned Some and the filter check returned true
                 a_some = ex.discr_of(auth[0].ret) == 1
-                viol.append(z3.And(pc, z3.Not(z3.And(a_some, rec[0].ret if isinstance(rec[0].ret, z3.BoolRef) else z3.BoolVal(False)))))
+                viol.append(z3.And(pc, z3.Not(z3.And(a_some, rec[-1].ret if isinstance(rec[-1].ret, z3.BoolRef) else z3.BoolVal(False)))))
+                # and the authority handed to recognize is the one determined from this request
+                rz = [e for e in rec if e.callee.endswith("::recognize")]
+                if rz and str(to_term(auth[0].ret)) not in str(to_term(MM.value_of(ex, rz[0].args[1]))) and "Some:0" not in str(to_term(MM.value_of(ex, rz[0].args[1]))):
+                    viol.append(pc)
         else:
             made = [e for e in evs if "{async block@" in e.callee or "boxed" in e.callee]
             (reach_400 if not rec else reach_403).append(pc)
@@ -325,5 +330,5 @@ def obligations(tier, seed):
         out.append(R.decide("order:HostFilter::call:gate", "order", z3.Or(*viol) if viol else z3.BoolVal(False), [z3.Or(*reach_in), z3.Or(*reach_400), z3.Or(*reach_403)], bodies=[b.name],
                             desc="the inner service is called only after an authority was determined and the filter (if enabled) recognised it; otherwise the request ends in the filter (400 / 403)",
                             bounds="all paths of HostFilter::call", keydetail="gate",
-                            extra={"models": ["Option::is_none_or(filter, closure): recorded call with symbolic result", "from_http_request: recorded call with symbolic Option"]}))
+                            extra={"models": ["Option::is_none_or(filter, closure): true without a filter, else the inlined closure, whose WhitelistedHosts::recognize call has a symbolic result", "from_http_request: recorded call with symbolic Option"]}))
     return out
